@@ -79,9 +79,9 @@ impl<T: Bounded> BVH<T> {
         let mut pending: Vec<TreeElement<T>> = Vec::new();
         // Nodos procesados (2*n-1 nodos con n terminales)
         let expected_num_nodes = if elements.is_empty() {
-            2 * (elements.len() / max_num_elements) - 1
-        } else {
             0
+        } else {
+            (2 * (elements.len() / max_num_elements.max(1))).saturating_sub(1)
         };
         let mut node_list: Vec<TreeElement<T>> = Vec::with_capacity(expected_num_nodes);
 
